@@ -6,6 +6,7 @@ from analysis import chessref as R
 from analysis.cfg import cfg_of
 from analysis.effects import subterms, acnorm, strip_casts
 
+THOROUGH_CONFIGS = ['release', 'nobmi2', 'movegen-alone']
 LEVEL = "other"
 DECIDED = ("R1 dispatch: no checker -> all six piece generators without check restriction; exactly one checker -> the same six with the check mask (king: evasion); otherwise king only; "
            "R2 every non-king generator loops over (own pieces of its type minus pinned) with destinations pseudo_legals(src, turn, occupancy, mask) & check_mask and, only when not in check "
